@@ -16,6 +16,13 @@ METHODS = [b'GET', b'POST', b'PUT', b'DELETE', b'OPTIONS', b'PATCH', b'HEAD']
 VIA = b'1.1 ' + PROXY_AGENT_HEADER_VALUE
 
 
+def _spell(name, c0):
+    """The framing header's name as the client spells it: canonical, or (CFG['lower']) with a symbolic-case first letter."""
+    if not CFG.get('lower'):
+        return name
+    return B(name[0] + (c0 - 65)) + name[1:].lower()      # c0 is 65 or 97: 'C'/'c', 'T'/'t'
+
+
 def assemble(m0, m1, m2, p0, p1, c0, v0, v1, w0, sp, d0, d1, d2):
     """Returns (wire bytes, expectation dict) for the configured shape."""
     mi = CFG['method']
@@ -42,10 +49,10 @@ def assemble(m0, m1, m2, p0, p1, c0, v0, v1, w0, sp, d0, d1, d2):
     framing = CFG['framing']          # none | cl | chunked
     wire_body = b''
     if framing == 'cl':
-        hdrs.append((b'Content-Length', b'%d' % CFG['blen'], b' '))
+        hdrs.append((_spell(b'Content-Length', c0), b'%d' % CFG['blen'], b' '))
         wire_body = body
     elif framing == 'chunked':
-        hdrs.append((b'Transfer-Encoding', b'chunked', b' '))
+        hdrs.append((_spell(b'Transfer-Encoding', c0), b'chunked', b' '))
         i = 0
         for sz in CFG['layout']:
             wire_body = wire_body + (b'%x' % sz) + b'\r\n' + body[i:i + sz] + b'\r\n'
@@ -84,17 +91,14 @@ def check_forwarded(sent, exp):
     for k, v in got:
         if k in (b'proxy-connection', b'proxy-authorization', b'x-drop', b'x-also-drop'):
             return 'hop-by-hop / disabled header forwarded', k
-    # header multiset (names case-insensitively, values byte-exact); Content-Length may be re-emitted by the builder
+    # header MULTISET (names case-insensitively, values byte-exact): every client header exactly once, nothing else
     rest = [(k, v) for k, v in got if k != b'via']
-    want = list(exp['headers'])
-    for kv in want:
+    for kv in exp['headers']:
         if kv not in rest:
             return 'a client header is missing or altered', repr(kv)
+        rest.remove(kv)
     for kv in rest:
-        if kv not in want:
-            if kv[0] == b'content-length' and exp['framing'] != 'chunked' and kv[1] == b'%d' % len(exp['body']):
-                continue
-            return 'a header the client did not send was added', repr(kv)
+        return 'a header the client did not send was added (or one was duplicated)', repr(kv)
     if m['body'] != exp['body']:
         return 'decoded body differs', m['body']
     if exp['framing'] == 'chunked' and m['framing'] != 'chunked':
@@ -212,6 +216,8 @@ def obligations(tier):
         nm = '%s.b%d%s' % (fr, bl, ('.' + 'x'.join(map(str, lay))) if lay else '')
         add('body.%s' % nm, method=1, framing=fr, blen=bl, layout=lay)
         add('body.%s.second' % nm, method=1, framing=fr, blen=bl, layout=lay, second=True)
+        add('body.%s.lower' % nm, method=1, framing=fr, blen=bl, layout=lay, lower=True)
+        add('body.%s.lower.second' % nm, method=1, framing=fr, blen=bl, layout=lay, lower=True, second=True)
         # segmentation: every cut position in the body region, a few in the head
         cfg = dict(base, method=1, framing=fr, blen=bl, layout=lay, nheaders=0)
         n = _len_of(cfg)
@@ -246,7 +252,8 @@ META = {
         'quick': 'methods GET/POST/PUT/DELETE/OPTIONS/PATCH/HEAD and one token of 3 symbolic upper-case letters; absolute-form target with 0..2 '
                  'symbolic visible path bytes; 0..2 extra headers (symbolic name case, 1-2 symbolic visible value bytes, symbolic optional '
                  'leading space) plus optional Proxy-Connection, Proxy-Authorization and two operator-disabled headers; body none / '
-                 'Content-Length 0,1,3 symbolic bytes / chunked layouts [],[1],[2,1],[3]; delivered whole and cut at every position of the body '
+                 'Content-Length 0,1,3 symbolic bytes / chunked layouts [],[1],[2,1],[3], framing header name spelled canonically or in lower case with a '
+                 'symbolic-case first letter; delivered whole and cut at every position of the body '
                  'region and selected head positions; as first and as second request of the connection',
         'thorough': 'plus every pair of cuts in the body region',
     },
